@@ -77,9 +77,9 @@ def find_cmd_strings(data: bytes) -> list[Node]:
         if (not split[0].startswith(b'"') and split[0].endswith(b'"')) or (
             not split[0].startswith(b"'") and split[0].endswith(b"'")
         ):
-            # Remove the trailing quotation
-            split[0] = split[0][:-1]
-            deobfuscated = b" ".join(split)
+            # Remove the trailing quotation (and nothing else: the rest of the command keeps its spacing)
+            quote_at = deobfuscated.index(split[0]) + len(split[0]) - 1
+            deobfuscated = deobfuscated[:quote_at] + deobfuscated[quote_at + 1 :]
 
         cmd_string = Node("shell.cmd", deobfuscated, obfuscation, start, end)
         cmd_strings.append(cmd_string)
